@@ -25,6 +25,7 @@
 #include <boost/config.hpp>
 
 #include <algorithm>
+#include <functional>
 #include <cstddef>
 #include <cstring>
 #include <iterator>
@@ -936,8 +937,10 @@ void generate_pixels(View const& view, F fun)
     }
     else
     {
+        // one generator for the whole view: std::generate takes it by value, and a copy per row makes
+        // a generator with state start over on every row (and the result depend on the memory layout)
         for (std::ptrdiff_t y = 0; y < view.height(); ++y)
-            std::generate(view.row_begin(y), view.row_end(y), fun);
+            std::generate(view.row_begin(y), view.row_end(y), std::ref(fun));
     }
 }
 
